@@ -235,3 +235,44 @@ func init() {
 	modelEffects["(time.Time).Unix"] = []string{}
 	_ = fmt.Sprint
 }
+
+const aBlock = "cipher.Block.Encrypt(dst, src) (assumed, crypto/cipher docs): requires len(src) >= 16 and len(dst) >= 16 and dst, src either identical or non-overlapping in their first 16 bytes; writes aesE(block, src[0:16]) to dst[0:16] and nothing else; BlockSize() is 16"
+
+func init() {
+	ifaceModels["Encrypt"] = func(c *callCtx) (*SV, bool) {
+		if len(c.args) != 2 || !isByteSlice(c.args[0].T) || !isByteSlice(c.args[1].T) {
+			return nil, false
+		}
+		vc, st := c.vc, c.n.St
+		vc.note(aBlock)
+		vc.eng.useSpec(vc, "aesE")
+		dst, src := c.args[0], c.args[1]
+		vc.oblige("block-len", "cipher.Block.Encrypt: input or output shorter than a block"+c.where(), c.n.Reach,
+			and(app("bvsge", dst.C[2], bvLit(64, 16)), app("bvsge", src.C[2], bvLit(64, 16))), "@nopanic")
+		// inexact overlap panics
+		same := eq(dst.C[0], src.C[0])
+		d0, s0 := dst.C[1], src.C[1]
+		okOverlap := or(not(same), eq(d0, s0), app("bvsle", bvAdd(d0, bvLit(64, 16)), s0), app("bvsle", bvAdd(s0, bvLit(64, 16)), d0))
+		vc.oblige("block-overlap", "cipher.Block.Encrypt: output and input overlap inexactly"+c.where(), c.n.Reach, okOverlap, "@nopanic")
+		srcRow := sel(st.H["H8"], src.C[0])
+		var parts []string
+		for k := 0; k < 16; k++ {
+			parts = append(parts, sel(srcRow, cellIdx(src.C[1], k)))
+		}
+		x := vc.defS(SBV128, app("concat", parts...), "blk")
+		y := vc.defS(SBV128, app("aesE", c.recv.C[1], x), "enc")
+		row := sel(st.H["H8"], dst.C[0])
+		for k := 0; k < 16; k++ {
+			hi := 127 - 8*k
+			row = sto(row, cellIdx(dst.C[1], k), fmt.Sprintf("((_ extract %d %d) %s)", hi, hi-7, y))
+		}
+		st.H["H8"] = vc.def(heapSort(SBV8), sto(st.H["H8"], dst.C[0], row), "H8")
+		return nil, true
+	}
+	ifaceEffects["Encrypt"] = []string{"H8"}
+	ifaceModels["BlockSize"] = func(c *callCtx) (*SV, bool) {
+		c.vc.note(aBlock)
+		return &SV{T: intType, C: []string{bvLit(64, 16)}}, true
+	}
+	ifaceEffects["BlockSize"] = []string{}
+}
